@@ -26,7 +26,7 @@ def run_killable(cmd, cwd, env=None, timeout=900):
     """subprocess.run that kills the whole process group on timeout (kani leaves cbmc children behind otherwise)"""
     import signal
     import resource
-    cap = int(float(os.environ.get("VERIF_MEM_GB", "12")) * (1 << 30))
+    cap = int(float(os.environ.get("VERIF_MEM_GB", "32")) * (1 << 30))
 
     def limit():
         # address-space cap per process (cbmc that outgrows it ends with "out of memory" -> UNDECIDED, never an alarm);
